@@ -52,6 +52,8 @@ def classify(sig, fam):
         return "KF-C01-postinc-in-condition"
     if fam == "F1n":
         return "KF-C01-pha-unbalanced" if "(R | 0)" in sig else None
+    if fam == "F2e":
+        return "KF-C01-cmp-zero" if re.search(r"u8 (<|<=|>=|>) 0\)", sig) else None
     if fam == "F2d":
         return "KF-C01-else-flags-after-and"
     if fam == "F9" and sig.startswith("A16[u8]"):
